@@ -97,7 +97,7 @@ class Main(Suite):
     go_cmd = "c27"
     coq_imports = "From GoGit Require Import Model.Status Spec.GitStatus."
     quick_n = 130
-    thorough_n = 4000
+    thorough_n = 500
     coq_chunk = 100
 
     def gen(self, rng, n, tier):
